@@ -1,5 +1,6 @@
 """Side-car contracts and the per-function verification driver."""
 import ast
+import os
 import time
 import traceback
 import z3
@@ -33,7 +34,8 @@ class Contract:
     def __init__(self, target, params, requires=(), ensures=(), raises=None, loops=None, overrides=None,
                  setup=None, props=(), name=None, raises_only_if=False, notes="", assumes=(), result_kind=None,
                  frame=None, extra_names=None, timeout=10000, path_ensures=None, stubs=None, tier="quick",
-                 case=None, native_seams=None, ghost_frame=None, block=None):
+                 case=None, native_seams=None, ghost_frame=None, block=None, outputs=None,
+                 exc_ensures=None):
         self.target = target
         self.params = params
         self.requires = list(requires)
@@ -53,6 +55,8 @@ class Contract:
         self.timeout = timeout
         self.path_ensures = path_ensures
         self.tier = tier                 # "quick": every run; "thorough": only in the thorough tier
+        self.exc_ensures = list(exc_ensures or [])   # (name, expr) over the state at an exceptional exit
+        self.outputs = dict(outputs or {})   # block contracts: locals the block may define (arbitrary value where it did not)
         self.block = block               # (name, selector(func ast) -> statements): verify an extracted statement block
         self.ghost_frame = list(ghost_frame or [])     # ghost variables a call may change (havoced at call sites)
         self.native_seams = list(native_seams or [])   # seams scripted by the native replay / search harness
@@ -268,44 +272,83 @@ def instantiate(h, terms, budget=150):
     return out
 
 
+# Solver budgets are given in "nominal milliseconds" and enforced through z3's deterministic resource counter (rlimit),
+# so that a verdict does not depend on the load of the machine; the wall-clock timeout is only a safety net.
+RLIMIT_PER_MS = int(os.environ.get("VERIF_RLIMIT_PER_MS", "600"))
+WALL_FACTOR = 30
+ESCALATION = int(os.environ.get("VERIF_ESCALATION", "6"))
+_RL_LOG = os.environ.get("VERIF_RLIMIT_LOG")
+
+
+def rlimit_of(s):
+    st = s.statistics()
+    for k in st.keys():
+        if k == "rlimit count":
+            return st.get_key_value(k)
+    return 0
+
+
 def _solve(hyps, cond, timeout, **opts):
     s = z3.Solver()
-    s.set("timeout", timeout)
+    s.set("timeout", int(timeout * WALL_FACTOR))
+    s.set("rlimit", int(timeout * RLIMIT_PER_MS))
     for k, v in opts.items():
         s.set(k, v)
     for h in hyps:
         s.add(h)
     s.add(z3.Not(cond))
+    if _RL_LOG:
+        t0, r0 = time.time(), rlimit_of(s)
     r = s.check()
+    if _RL_LOG:
+        with open(_RL_LOG, "a") as f:
+            f.write(f"{r} budget_ms={timeout} wall_ms={(time.time() - t0) * 1000:.0f} rlimit={rlimit_of(s) - r0} reason={s.reason_unknown() if r == z3.unknown else ''}\n")
     return r, (s.model() if r == z3.sat else None)
 
 
-def discharge(axioms, pc, cond, timeout):
+def discharge(axioms, pc, cond, timeout, scales=None):
     """Return (status, model, ms, exact).
 
     proved  : axioms & pc & not cond is unsat
     failed  : a model exists; exact=True when it satisfies all hypotheses, exact=False when it is only a
               *candidate* obtained after dropping the quantified hypotheses (to be confirmed by replay)
     unknown : neither
+
+    The attempts are made with the nominal budgets first; when they end without a proof or an exact model the whole
+    sequence is repeated once with ESCALATION times the budgets, so that a provable obligation is not reported as
+    failed merely because the quick attempts ran out of resources.
     """
     t0 = time.time()
     pc = prune_orphans(list(pc), cond)
     ax = relevant_axioms(axioms, pc, cond)
     hyps = ax + list(pc)
     ms = lambda: (time.time() - t0) * 1000
+    candidate = None
+    for scale in (scales or (1, ESCALATION)):
+        status, model, exact = _discharge_once(hyps, cond, timeout, scale)
+        if status == "proved" or (status == "failed" and exact):
+            return status, model, ms(), True
+        if status == "failed" and candidate is None:
+            candidate = model
+    if candidate is not None:
+        return "failed", candidate, ms(), False
+    return "unknown", None, ms(), False
+
+
+def _discharge_once(hyps, cond, timeout, scale):
     quantified = any(has_quantifier(h) for h in hyps) or has_quantifier(cond)
-    r_first, m_first = _solve(hyps, cond, min(timeout, 2500))
+    r_first, m_first = _solve(hyps, cond, min(timeout, 2500) * scale)
     if r_first == z3.unsat:
-        return "proved", None, ms(), True
+        return "proved", None, True
     if r_first == z3.sat:
-        return "failed", m_first, ms(), True
+        return "failed", m_first, True
     if quantified:
         # cheap attempts with fewer hypotheses first (sound: hypotheses are only dropped): the quantifier-free part,
         # then the quantified facts within one / two steps of the goal's symbols
         ground0 = [h for h in hyps if not has_quantifier(h)]
-        r0, _ = _solve(ground0, cond, 1500)
+        r0, _ = _solve(ground0, cond, 1500 * scale)
         if r0 == z3.unsat:
-            return "proved", None, ms(), True
+            return "proved", None, True
 
         def special(names):
             return {n for n in names if "!" in n or n.startswith(("mem<", "memidx<", "card<", "prefix_", "map_idx", "otp_",
@@ -315,26 +358,26 @@ def discharge(axioms, pc, cond, timeout):
         for rounds in (1, 2):
             sel = [h for h, ss in qh if ss & cone]
             if len(sel) < len(qh):
-                r1, _ = _solve(ground0 + sel, cond, 3000, **{"smt.mbqi": False})
+                r1, _ = _solve(ground0 + sel, cond, 3000 * scale, **{"smt.mbqi": False})
                 if r1 == z3.unsat:
-                    return "proved", None, ms(), True
+                    return "proved", None, True
             for h, ss in qh:
                 if ss & cone:
                     cone = cone | ss
     first = [({}, min(timeout, 5000)), ({"smt.mbqi": False, "smt.random_seed": 7}, min(timeout, 5000))]
     later = [({"smt.random_seed": 3}, timeout), ({"smt.mbqi": False, "smt.random_seed": 11}, timeout)]
     for opts, to in first:
-        r, m = _solve(hyps, cond, max(to, 1000), **opts)
+        r, m = _solve(hyps, cond, max(to, 1000) * scale, **opts)
         if r == z3.unsat:
-            return "proved", None, ms(), True
+            return "proved", None, True
         if r == z3.sat:
-            return "failed", m, ms(), True
+            return "failed", m, True
         if not quantified:
-            return "unknown", None, ms(), False
+            return "unknown", None, False
     ground = [h for h in hyps if not has_quantifier(h)]
     r2, m2 = _solve(ground, cond, 4000)
     if r2 == z3.unsat:
-        return "proved", None, ms(), True
+        return "proved", None, True
     if r2 == z3.sat:
         # refine the candidate: add ground instances of the quantified hypotheses at the terms of the VC
         try:
@@ -345,22 +388,22 @@ def discharge(axioms, pc, cond, timeout):
                     inst += instantiate(h, terms)
             r3, m3 = _solve(ground + inst, cond, 6000)
             if r3 == z3.unsat:
-                return "proved", None, ms(), True
+                return "proved", None, True
             if r3 == z3.sat:
                 m2 = m3
         except z3.Z3Exception:
             pass
     for opts, to in later:
-        r, m = _solve(hyps, cond, max(to, 1000), **opts)
+        r, m = _solve(hyps, cond, max(to, 1000) * scale, **opts)
         if r == z3.unsat:
-            return "proved", None, ms(), True
+            return "proved", None, True
         if r == z3.sat:
-            return "failed", m, ms(), True
+            return "failed", m, True
         if r2 == z3.sat:
             break     # a candidate exists: one more attempt was enough
     if r2 == z3.sat:
-        return "failed", m2, ms(), False
-    return "unknown", None, ms(), False
+        return "failed", m2, False
+    return "unknown", None, False
 
 
 def make_engine(index, schema_mod, contract=None):
@@ -377,7 +420,8 @@ def make_engine(index, schema_mod, contract=None):
             if isinstance(ordinal, tuple):
                 eng.loop_specs[ordinal] = spec
             else:
-                eng.loop_specs[(fs.qualname, ordinal)] = spec
+                qn = fs.qualname + ("#" + contract.block[0] if contract.block is not None else "")
+                eng.loop_specs[(qn, ordinal)] = spec
     return eng
 
 
@@ -468,6 +512,9 @@ def _verify(contract, index, schema_mod, fs, res):
         result = flow.value if flow.kind == "return" else NONE
         st1.locals["result"] = result
         st1.locals["flow"] = const(flow.kind)      # how the block was left: normal / return / continue / break
+        for oname, okind in contract.outputs.items():
+            if oname not in st1.locals:
+                st1.locals[oname] = fresh(okind, oname + ".unassigned")
         for ename, expr in contract.ensures:
             stc = st1.copy()
             t = eng.ev_merged(parse_expr(expr), stc, want_bool=True)
@@ -500,8 +547,12 @@ def _verify(contract, index, schema_mod, fs, res):
             pre_st.facts = set(st1.facts)
             t = eng.ev_merged(parse_expr(when), pre_st, want_bool=True)
             raw.append((f"{contract.name}.raises.{listed[0]}.only_when", "exc", list(pre_st.pc), t.term, st1, exc.where))
-        for ename, expr in contract.ensures:
-            pass
+        # postconditions of the exceptional exits (`exc` names the exception class)
+        for ename, expr in contract.exc_ensures:
+            stc = st1.copy()
+            stc.locals["exc"] = const(exc.cls)
+            t = eng.ev_merged(parse_expr(expr), stc, want_bool=True)
+            raw.append((f"{contract.name}.{ename}", "post", list(stc.pc), t.term, stc, exc.where))
     # canary: `ensures False` must NOT be provable on every normally terminating path
     dead = 0
     for st1, flow in outs:
@@ -518,23 +569,37 @@ def _verify(contract, index, schema_mod, fs, res):
     by_name = {}
     for name, kind, pc, cond, stx, line in raw:
         by_name.setdefault(name, []).append((kind, pc, cond, stx, line))
+    # pass 1: every instance with the nominal budgets; pass 2: the undecided ones once more with escalated budgets,
+    # unless some obligation of this function already failed with an exact model (then the verdict is clear)
+    first = {}
+    exact_failure = False
+    for name, items in by_name.items():
+        for n, (kind, pc, cond, stx, line) in enumerate(items):
+            c = z3.simplify(cond)
+            if z3.is_true(c):
+                first[(name, n)] = ("proved", None, 0.0, True)
+                continue
+            budget = contract.timeout if not exact_failure else min(contract.timeout, 1500)
+            r = discharge(axioms, pc, cond, budget, scales=(1,))
+            first[(name, n)] = r
+            if r[0] == "failed" and r[3]:
+                exact_failure = True
+    escalated_failure = False
     for name, items in by_name.items():
         worst = None
         total_ms = 0.0
-        size = 0
-        for kind, pc, cond, stx, line in items:
-            c = z3.simplify(cond)
-            if z3.is_true(c):
-                status, model, ms, exact = "proved", None, 0.0, True
-            else:
-                # once an obligation of this function has failed, the remaining ones get a short budget
-                budget = contract.timeout if not res.fail_fast else min(contract.timeout, 1500)
-                status, model, ms, exact = discharge(axioms, pc, cond, budget)
+        for n, (kind, pc, cond, stx, line) in enumerate(items):
+            status, model, ms, exact = first[(name, n)]
+            if status != "proved" and not (status == "failed" and exact) and not exact_failure and not escalated_failure:
+                status2, model2, ms2, exact2 = discharge(axioms, pc, cond, contract.timeout, scales=(ESCALATION,))
+                ms += ms2
+                if status2 == "proved" or (status2 == "failed" and exact2) or status == "unknown":
+                    status, model, exact = status2, model2, exact2
                 if status != "proved":
-                    res.fail_fast = True
+                    escalated_failure = True
             total_ms += ms
-            size += sum(len(str(x)) for x in pc[-3:]) if False else 0
             if status != "proved":
+                res.fail_fast = True
                 worst = ObligationResult(name, status, total_ms, detail=f"path {stx.trace[-8:]}", model=model, state=stx,
                                          line=line, kind=kind)
                 worst.exact_model = exact
@@ -700,7 +765,7 @@ def contract_handler(c):
     return h
 
 
-def seam_handler(seam, result_kind=None, may_raise=(), frame=()):
+def seam_handler(seam, result_kind=None, may_raise=(), frame=(), snapshot=()):
     """Summary of a call that crosses a seam (remote door, test runner, back end ...).
 
     The call is logged in ghost state: `<seam>.calls` (Int) is incremented, `<seam>.result` holds the returned
@@ -709,6 +774,12 @@ def seam_handler(seam, result_kind=None, may_raise=(), frame=()):
         calls = st.ghost.get(f"{seam}.calls")
         if calls is None:
             calls = V(INT, z3.Const(f"{seam}.calls0", z3.IntSort()))
+        # the arguments of the (last) call and the values other ghost variables had when it was made
+        for i, a in enumerate(([recv] if recv is not None else []) + list(args)):
+            st.ghost[f"{seam}.arg{i}"] = a
+        for g in snapshot:
+            for _st, v in ghost_reader(eng, st, [const(g)], {}, node):
+                st.ghost[f"{seam}.saw.{g}"] = v
         outcomes = [(st, None)]
         for exc in may_raise:
             nxt = []
@@ -734,6 +805,31 @@ def seam_handler(seam, result_kind=None, may_raise=(), frame=()):
                 r = fresh(result_kind, f"{seam}.result")
                 stx.ghost[f"{seam}.result"] = r
                 yield stx, r
+    h.seam = seam
+    return h
+
+
+def traced(seam, inner, snapshot=()):
+    """Wrap a call handler: count the calls in ghost `<seam>.calls`, remember the arguments of the last call
+    (`<seam>.arg<i>`, receiver first), its result (`<seam>.result`) and the values the ghost variables named in
+    `snapshot` had when the call was made (`<seam>.saw.<name>`)."""
+    def h(eng, st, recv, args, kwargs, node):
+        calls = st.ghost.get(f"{seam}.calls")
+        if calls is None:
+            calls = V(INT, z3.Const(f"{seam}.calls0", z3.IntSort()))
+            st.ghost[f"{seam}.calls"] = calls
+        pre = {}
+        for i, a in enumerate(([recv] if recv is not None else []) + list(args)):
+            pre[f"{seam}.arg{i}"] = a
+        for g in snapshot:
+            for _st, v in ghost_reader(eng, st, [const(g)], {}, node):
+                pre[f"{seam}.saw.{g}"] = v
+        for st1, r in inner(eng, st, recv, args, kwargs, node):
+            st1.ghost.update(pre)
+            st1.ghost[f"{seam}.calls"] = V(INT, calls.term + 1)
+            if isinstance(r, V):
+                st1.ghost[f"{seam}.result"] = r
+            yield st1, r
     h.seam = seam
     return h
 
